@@ -152,7 +152,7 @@ func TestC03Sweep(t *testing.T) {
 		}
 	}
 	// lengths just above 2^20 and a few millions of bits for every parameter (implementations that work in windows / chunks)
-	for _, n := range []int{1048577, 1048585, 3000001, 4194304} {
+	for _, n := range []int{1048577, 1048585, 3000001, 4194304, 10000019} {
 		for _, k := range []int{3, 7, 15} {
 			cases = append(cases, statCase{Test: "binderiv", M: k, Seq: gen.Seq{Family: "uniform", N: n, Seed: uint64(n + k)}})
 		}
